@@ -763,3 +763,78 @@ def k_day_view(eng, instant=False):
     else:
         r = run_kernel(eng, "08.d/B/day-view", "08.d", "every date, every Lichun day, lunar year of the date = civil year or the one before, the date's term and its day as given", build, None, replay)
     return _finish(r, holder["ctx"]) if "ctx" in holder else r
+
+
+# ------------------------------------------------------------------------------------------------ eight characters = the four pillars (09.d)
+def k_compose(eng, which):
+    """which: instant (SixtyCycleHour::get_eight_char) | sect2 (LunarSect2EightCharProvider) | default (DefaultEightCharProvider) | getter-year/month/day/hour"""
+    holder = {}
+
+    def build(eng):
+        y, m, d, h, own = (None,) * 5
+        ctx = _ctx(eng, {"EightChar::from_sixty_cycle": ("from_sixty_cycle", "SixtyCycle", "EightChar")})
+        holder.update(ctx=ctx)
+        y, m, d, h, own = [ctx.fresh_value(n, "usize") for n in ("year_pillar", "month_pillar", "rolled_day_pillar", "hour_pillar", "own_day_pillar")]
+        pre = ["(<= 0 %s 59)" % v.s for v in (y, m, d, h, own)]
+        view = Rec(ctx, "instant_view", "SixtyCycleHour")
+        model = ctx.model
+        base = model.call
+        want = {"year": y, "month": m, "day": d, "hour": h}
+
+        def call(c, fr, callee, args, path):
+            a = [model.deref(c, x) for x in args]
+            if a and a[0] is view:
+                r = {"SixtyCycleHour::get_year": y, "SixtyCycleHour::get_month": m, "SixtyCycleHour::get_day": d, "SixtyCycleHour::get_sixty_cycle": h}.get(callee)
+                if r is not None:
+                    return True, Obj("SixtyCycle", r)
+            if callee == "LunarHour::get_sixty_cycle_hour":
+                return True, view
+            if callee == "LunarHour::get_lunar_day":
+                return True, Rec(c, "own_lunar_day", "LunarDay")
+            if callee == "LunarDay::get_sixty_cycle" and isinstance(a[0], Rec) and a[0].name == "own_lunar_day":
+                return True, Obj("SixtyCycle", own)
+            return base(c, fr, callee, args, path)
+        model.call = call
+        if which == "instant":
+            fn = M.find_fn(eng.fns, "get_eight_char", "&SixtyCycleHour")
+            paths = ctx.run(fn, [("refrec", view)])
+        elif which in ("sect2", "default"):
+            prov = {"sect2": "LunarSect2EightCharProvider", "default": "DefaultEightCharProvider"}[which]
+            fn = M.find_fn(eng.fns, "get_eight_char", "&" + prov)
+            if which == "default":
+                ctx.inline_map["SixtyCycleHour::get_eight_char"] = M.find_fn(eng.fns, "get_eight_char", "&SixtyCycleHour")
+                ctx.inline = set(ctx.inline_map)
+            else:
+                want["day"] = own
+            paths = ctx.run(fn, [("refrec", Rec(ctx, "provider", prov)), Rec(ctx, "lunar_hour", "LunarHour")])
+        else:
+            f = which.split("-")[1]
+            fn = M.find_fn(eng.fns, "get_" + f, "&EightChar")
+            fields = struct_fields(os.path.join(REPO, "src/tyme/eightchar/mod.rs"), "EightChar")
+            rec = Rec(ctx, "self", "EightChar")
+            for k, n in enumerate(fields):
+                rec.fields[k] = Obj("SixtyCycle", want[n])
+            paths = ctx.run(fn, [("refrec", rec)])
+            want = {"": want[f]}
+
+        def shape(p):
+            r = p.ret
+            if which.startswith("getter"):
+                return None if isinstance(r, Obj) and r.kind == "SixtyCycle" else "result is not a pillar"
+            if not (isinstance(r, Rec) and getattr(r, "named", None) and set(r.named) == set(want)):
+                return "result is not an EightChar record"
+            return None if all(isinstance(v, Obj) and v.kind == "SixtyCycle" for v in r.named.values()) else "a stored pillar is not a modelled pillar"
+
+        def posts(p):
+            if which.startswith("getter"):
+                return [("returns-its-pillar", "(= %s %s)" % (p.ret.idx.s, want[""].s))]
+            return [(k, "(= %s %s)" % (p.ret.named[k].idx.s, want[k].s)) for k in ("year", "month", "day", "hour")]
+        return ctx, paths, pre, posts, shape
+
+    def replay(eng, model):
+        nat = eng.native("compose_scan")
+        if nat in ("NONE", "PANIC", "UNKNOWN", ""):
+            return nat == "PANIC", "native scan: " + (nat or "no output")
+        return True, "eight characters differ from the four pillars of the instant: " + nat
+    r = run_kernel(eng, "09.d/B/compose/%s" % which, "09.d", "all four pillars arbitrary (0..59 each)", build, None, replay)
+    return _finish(r, holder["ctx"]) if "ctx" in holder else r
